@@ -13,6 +13,7 @@ import (
 	"os/exec"
 	"path/filepath"
 	"strings"
+	"sync"
 	"sync/atomic"
 	"time"
 
@@ -101,12 +102,16 @@ func c06BinPath() string {
 }
 
 // c06Start starts the binary on db and waits until its HTTP endpoint answers.
-func c06Start(dir, db, yaml, skey string) (*c06Proc, error) {
+func c06Start(dir, db, yaml, skey string, extra ...string) (*c06Proc, error) {
 	port := c06FreePort()
 	errf := filepath.Join(dir, fmt.Sprintf("stderr-%d.log", time.Now().UnixNano()))
 	ef, _ := os.Create(errf)
 	cmd := exec.Command(c06BinPath(), "--listen", fmt.Sprintf("127.0.0.1:%d", port), "--metrics_listen", "", "--db_file", db,
-		"--private_key", skey, "--poll_interval", "200ms", "--http_timeout", "5s")
+		"--private_key", skey, "--poll_interval", "200ms")
+	if len(extra) == 0 {
+		extra = []string{"--http_timeout", "5s"}
+	}
+	cmd.Args = append(cmd.Args, extra...)
 	cmd.Env = append(os.Environ(), "VERIF_LOGS_YAML="+yaml)
 	cmd.Stdout, cmd.Stderr = ef, ef
 	if err := cmd.Start(); err != nil {
@@ -388,4 +393,121 @@ func c06Bytes(s string) []byte {
 		return nil
 	}
 	return []byte(s)
+}
+
+// c15Binary (C15 through the real binary, i.e. with the HTTP client
+// cmd/omniwitness itself builds and shares between feeders and distributor):
+// the binary is run once to witness two logs, killed, and started again with a
+// distributor configured whose answer for the FIRST log stalls after the
+// response headers (200, Content-Length announced, body never sent). That
+// counts as a failure for that log only: the second log's checkpoint - exactly
+// the bytes the witness serves for it - must still be pushed.
+func c15Binary(run *ev.Run) {
+	if _, err := os.Stat(c06BinPath()); err != nil {
+		ev.Internal("C15 binary leg: %s is missing (scripts/build.sh builds it)", c06BinPath())
+	}
+	u, gen, la, lb := c06Universe()
+	dir, err := os.MkdirTemp(c06Scratch(), "c15bin-")
+	if err != nil {
+		ev.Internal("C15 binary leg: scratch: %v", err)
+	}
+	defer os.RemoveAll(dir)
+	db := filepath.Join(dir, "witness.db")
+	logs := map[string]*c06Log{}
+	yaml := "Logs:\n"
+	for _, l := range []wh.LogCfg{la, lb} {
+		g := &c06Log{l: l}
+		g.srv.Store(stublog.New("serverless", u.Main))
+		lis, err := net.Listen("tcp", "127.0.0.1:0")
+		if err != nil {
+			ev.Internal("C15 binary leg: listener: %v", err)
+		}
+		hs := &http.Server{Handler: g}
+		go func() { _ = hs.Serve(lis) }()
+		defer hs.Close()
+		logs[l.ID()] = g
+		yaml += fmt.Sprintf("  - Origin: %s\n    URL: http://%s/\n    PublicKey: %s\n    Feeder: serverless\n", l.Origin, lis.Addr(), l.Key.VKey)
+	}
+	yf := filepath.Join(dir, "logs.yaml")
+	_ = os.WriteFile(yf, []byte(yaml), 0o644)
+	rep := map[string]any{"kind": "distributor-binary"}
+	p, err := c06Start(dir, db, yf, u.W1.SKey)
+	if err != nil {
+		run.Report("binary-does-not-start mode=binary", err.Error(), rep)
+		return
+	}
+	served := map[string]string{}
+	for _, l := range []wh.LogCfg{la, lb} {
+		cp, meta := gen.Get(l, u.Main, 3, "plain")
+		g := logs[l.ID()]
+		g.srv.Load().SetHead(3, cp)
+		if !c06Await(p, g, meta.Text) {
+			p.kill()
+			return // the binary does not follow the log: C06/C14's subject
+		}
+		c06Quiesce(g)
+		served[l.ID()] = p.read(l.ID())
+	}
+	p.kill()
+	// The distributor service.
+	var mu sync.Mutex
+	puts := map[string][]byte{}
+	release := make(chan struct{})
+	dl, err := net.Listen("tcp", "127.0.0.1:0")
+	if err != nil {
+		ev.Internal("C15 binary leg: listener: %v", err)
+	}
+	ds := &http.Server{Handler: http.HandlerFunc(func(w http.ResponseWriter, r *http.Request) {
+		body, _ := io.ReadAll(r.Body)
+		for _, l := range []wh.LogCfg{la, lb} {
+			if strings.Contains(r.URL.Path, "/logs/"+l.ID()+"/") {
+				mu.Lock()
+				puts[l.ID()] = body
+				mu.Unlock()
+				if l.ID() == la.ID() {
+					w.Header().Set("Content-Length", "2")
+					w.WriteHeader(200)
+					if f, ok := w.(http.Flusher); ok {
+						f.Flush()
+					}
+					<-release // the body never comes
+					return
+				}
+			}
+		}
+		_, _ = w.Write([]byte("ok"))
+	})}
+	go func() { _ = ds.Serve(dl) }()
+	defer ds.Close()
+	defer close(release)
+	p, err = c06Start(dir, db, yf, u.W1.SKey, "--http_timeout", "500ms", "--rest_distro_url", "http://"+dl.Addr().String())
+	if err != nil {
+		run.Report("binary-does-not-start mode=binary distributor=configured", err.Error(), rep)
+		return
+	}
+	defer p.kill()
+	got := func(id string) []byte {
+		mu.Lock()
+		defer mu.Unlock()
+		return puts[id]
+	}
+	deadline := time.Now().Add(c06BinWait)
+	for time.Now().Before(deadline) && (got(la.ID()) == nil || got(lb.ID()) == nil) {
+		time.Sleep(50 * time.Millisecond)
+	}
+	run.Add("binary_distributor_rounds", 1)
+	switch {
+	case got(la.ID()) == nil:
+		// The stalled log was never even attempted: the scenario did not run
+		// (a distributor that starts with another log is not wrong).
+		if got(lb.ID()) == nil {
+			run.Report("binary-distributor-pushes-nothing", fmt.Sprintf("the binary, started on a store holding two cosigned checkpoints with --rest_distro_url set, pushed nothing within %s", c06BinWait), rep)
+		}
+	case got(lb.ID()) == nil:
+		run.Report("one-stalled-answer-stops-the-round mode=binary", fmt.Sprintf("the distributor service answered the first log's PUT with headers (200, Content-Length: 2) and never sent the body; --http_timeout is 500ms; %s later the second log has still not been attempted: a failure for one log ended the round for all", c06BinWait), rep)
+	default:
+		if want, _ := base64.StdEncoding.DecodeString(served[lb.ID()]); string(got(lb.ID())) != string(want) {
+			run.Report("put-body mode=binary", "the bytes pushed for the second log are not the bytes the witness serves for it", rep)
+		}
+	}
 }
